@@ -3,6 +3,7 @@ from __future__ import annotations
 
 import ast
 
+from ..inline import inlined
 from ..model import AnalysisError, FuncInfo, Program
 from ..report import Run
 
@@ -59,8 +60,9 @@ def _eval_test(t: ast.expr, var: str, value: str):
     raise _NoEval()
 
 
-def fence_of(fn: ast.FunctionDef, name_param: str, stop_at_call_of: str | None) -> set[str]:
-    """names of REQUIRED_FENCE for which the body raises AttributeError before doing anything else"""
+def fence_of(fn: ast.FunctionDef, name_param: str, stop_at_call_of: str | None, consts=None) -> set[str]:
+    """names of REQUIRED_FENCE for which the body raises AttributeError before doing anything else;
+    `consts(name)` resolves a module-level constant (a tuple of probe names kept outside the function)"""
     fenced = set()
     for req in REQUIRED_FENCE:
         for st in fn.body:
@@ -68,7 +70,18 @@ def fence_of(fn: ast.FunctionDef, name_param: str, stop_at_call_of: str | None) 
                 continue  # docstring
             if isinstance(st, ast.If):
                 try:
-                    hit = _eval_test(st.test, name_param, req)
+                    test = st.test
+                    if consts is not None:
+                        class _R(ast.NodeTransformer):
+                            def visit_Name(self, n):
+                                if n.id != name_param and isinstance(n.ctx, ast.Load):
+                                    e = consts(n.id)
+                                    if e is not None:
+                                        return e
+                                return n
+                        import copy as _copy
+                        test = _R().visit(_copy.deepcopy(test))
+                    hit = _eval_test(test, name_param, req)
                 except _NoEval:
                     break
                 if hit:
@@ -81,11 +94,20 @@ def fence_of(fn: ast.FunctionDef, name_param: str, stop_at_call_of: str | None) 
     return fenced
 
 
+def _const_resolver(program: Program, module):
+    def res(name: str):
+        r = program.resolve_global(module, name)
+        if r and r[0] == "const" and isinstance(r[2], (ast.Tuple, ast.List, ast.Set)) and all(isinstance(x, ast.Constant) for x in r[2].elts):
+            return r[2]
+        return None
+    return res
+
+
 def decorator_fence(program: Program, deco: str, module) -> set[str] | None:
     r = program.resolve_global(module, deco)
     if not r or r[0] != "func":
         return None
-    f: FuncInfo = r[1]
+    f: FuncInfo = inlined(program, r[1])
     wrapped = f.params[0] if f.params else None
     inner = [n for n in f.node.body if isinstance(n, ast.FunctionDef)]
     rets = [n.value.id for n in ast.walk(f.node) if isinstance(n, ast.Return) and isinstance(n.value, ast.Name)]
@@ -94,7 +116,7 @@ def decorator_fence(program: Program, deco: str, module) -> set[str] | None:
         return None
     w = inner[0]
     # the wrapper must call the wrapped function (otherwise the hook is simply disabled, which is also safe)
-    return fence_of(w, w.args.args[1].arg, wrapped)
+    return fence_of(w, w.args.args[1].arg, wrapped, consts=_const_resolver(program, f.module))
 
 
 def check(program: Program, run: Run) -> None:
@@ -117,7 +139,7 @@ def check(program: Program, run: Run) -> None:
         raise AnalysisError(f"anchor vanished: only {len(hooks)} __getattr__ hooks found (>=3 confirmed by hand)")
     for f in hooks:
         name_param = f.params[1] if len(f.params) > 1 else None
-        fenced = set(fence_of(f.node, name_param, None)) if name_param else set()
+        fenced = set(fence_of(inlined(program, f).node, name_param, None, consts=_const_resolver(program, f.module))) if name_param else set()
         via = "own body"
         for d in f.decorators:
             df = decorator_fence(program, d, f.module)
@@ -164,6 +186,7 @@ def check(program: Program, run: Run) -> None:
                 continue
             selfname = f.params[0]
             local_funcs = {n.name for n in ast.walk(f.node) if isinstance(n, (ast.FunctionDef, ast.ClassDef)) and n is not f.node}
+            local_classes = {n.name for n in ast.walk(f.node) if isinstance(n, ast.ClassDef)}
             for n in ast.walk(f.node):
                 if isinstance(n, (ast.Assign, ast.AnnAssign)):
                     targets = n.targets if isinstance(n, ast.Assign) else [n.target]
@@ -177,8 +200,8 @@ def check(program: Program, run: Run) -> None:
                                 bad = "a generator"
                             elif isinstance(v, ast.Name) and v.id in local_funcs:
                                 bad = "a locally defined function/class"
-                            elif isinstance(v, ast.Call) and isinstance(v.func, ast.Name) and v.func.id in local_funcs:
-                                bad = "an instance of a locally defined class"
+                            elif isinstance(v, ast.Call) and isinstance(v.func, ast.Name) and v.func.id in local_classes:
+                                bad = "an instance of a locally defined class"     # (the *result* of calling a local function is ordinary data)
                             elif isinstance(v, ast.Call) and isinstance(v.func, ast.Name) and v.func.id in ("iter", "map", "filter", "zip", "open"):
                                 bad = f"an unpicklable {v.func.id}() object"
                             run.ob("C15/R3 instance attribute holds picklable data", f"{f.qualname}:{t.attr}", bad is None, where=f.loc(n), nontrivial=False)
